@@ -502,6 +502,7 @@ class ImplSpec:
         self.dropwhere = []
         self.canary_skip = set()
         self.ret = {}
+        self.assumes = {}
 
 
 def apply_contract(sig, clauses, ret="r"):
@@ -516,6 +517,63 @@ def apply_contract(sig, clauses, ret="r"):
         tail = rest[wm.start():] if wm else ""
         sig = sig[: m.start()] + "-> (" + ret + ": " + ty + ")" + ("\n" + tail if tail else "")
     return sig, text
+
+
+def normalize_params(sig, body, stats):
+    """R1b: parameter patterns that are not plain identifiers (`_`, tuple patterns) are named
+    `arg_N`, and the original pattern is bound by a `let` at the top of the body."""
+    m = re.search(r"\bfn\s+\w+\s*(<[^()]*>)?\s*\(", sig)
+    if not m:
+        return sig, body
+    op = m.end() - 1
+    cl = match_close(sig, op, "(", ")")
+    params = []
+    d = 0
+    cur = ""
+    for ch in sig[op + 1:cl]:
+        if ch in "<([":
+            d += 1
+        elif ch in ">)]":
+            d -= 1
+        if ch == "," and d == 0:
+            params.append(cur)
+            cur = ""
+        else:
+            cur += ch
+    if cur.strip():
+        params.append(cur)
+    new = []
+    lets = []
+    for k, prm in enumerate(params):
+        ps = prm.strip()
+        if re.match(r"(&\s*(mut\s+)?)?(mut\s+)?self\b", ps):
+            new.append(prm)
+            continue
+        # split pattern : type at top-level colon
+        d = 0
+        cut = None
+        for j, ch in enumerate(ps):
+            if ch in "<([":
+                d += 1
+            elif ch in ">)]":
+                d -= 1
+            elif ch == ":" and d == 0 and ps[j:j+2] != "::" and (j == 0 or ps[j-1] != ":"):
+                cut = j
+                break
+        if cut is None:
+            new.append(prm)
+            continue
+        pat, ty = ps[:cut].strip(), ps[cut + 1:].strip()
+        if re.match(r"^(mut\s+)?[A-Za-z]\w*$", pat) or re.match(r"^_\w+$", pat):
+            new.append(prm)
+            continue
+        nm = "arg_%d" % k
+        new.append(" %s: %s" % (nm, ty))
+        if pat != "_":
+            lets.append("\n    let %s = %s;" % (pat, nm))
+        stats["R1"] += 1
+    sig = sig[:op + 1] + ",".join(new) + sig[cl:]
+    return sig, "".join(lets) + body
 
 
 def process_fn(fn, spec, handle, stats, canary):
@@ -545,17 +603,20 @@ def process_fn(fn, spec, handle, stats, canary):
             sig = re.sub(r"\(\s*mut\s+self\s*([,)])", r"(self\1", sig, count=1)
             body = "\n    let mut self_ = self;" + replace_self(body)
             stats["R1"] += 1
+    for (expr, why) in spec.assumes.get(name, []):
+        e2 = replace_self(expr) if (by_value and not handle) else expr
+        body = "\n    assume(%s); // ASSUMPTION: %s" % (e2, why) + body
+    sig, body = normalize_params(sig, body, stats)
     # `mut x: T` parameters: Verus wants the binding immutable in the signature
-    pm = re.findall(r"[(,]\s*mut\s+(\w+)\s*:", sig)
-    for p in pm:
-        sig = re.sub(r"([(,]\s*)mut\s+" + p + r"(\s*:)", r"\1" + p + r"\2", sig)
-        body = "\n    let mut %s = %s;" % (p, p) + body
-        stats["R1"] += 1
     # loop invariants
     if name in spec.loops:
         for ordinal, inv in sorted(spec.loops[name].items(), reverse=True):
             ms = list(re.finditer(r"\b(while|for|loop)\b", body))
             ms = [m for m in ms if skip_trivia(body, m.start()) == m.start()]
+            if not ms:
+                # the body has become straight-line code: no invariant is needed any more
+                stats["dropped_loop_contracts"] = stats.get("dropped_loop_contracts", 0) + 1
+                continue
             if ordinal >= len(ms):
                 raise ExtractError("loop %d of %s not found" % (ordinal, name))
             m = ms[ordinal]
@@ -574,7 +635,9 @@ def process_fn(fn, spec, handle, stats, canary):
             body = body[:j] + "\n" + "\n".join(inv) + "\n" + body[j:]
     clauses = list(spec.fn.get(name, []))
     if canary and (clauses or name in spec.fn) and name not in spec.trusted and name not in spec.canary_skip:
-        clauses = clauses + (["  ensures false," ] if not any(c.strip().startswith("ensures") for c in clauses) else ["    false,"])
+        # vacuity canary: the entry of every contracted function must be reachable, i.e. its
+        # preconditions (and the representation invariant) must be satisfiable
+        body = "\n    assert(false); // CANARY" + body
     sig, ctext = apply_contract(sig, clauses, spec.ret.get(name, "r"))
     pre = ""
     if name in spec.trusted:
@@ -642,6 +705,13 @@ def extract_impl(path, header_lit, macro, args, handle, spec, stats, canary):
             header = re.sub(r"\b%s\b(?=\s*(<|for\b))" % a, b, header, count=1)
     gen, trait, selfty, where = header_generics(header)
     out = [header.rstrip() + "\n{"]
+    tm = re.match(r"Observer\s*<(.*)>\s*$", trait, re.S)
+    if tm and not handle and not any("fn records" in x for x in spec.spec):
+        ta = re.sub(r"\s+", " ", tm.group(1)).strip()
+        spec.spec = ["  open spec fn rx(&self) -> Seq<Ev<%s>> { Seq::empty() }" % ta,
+                     "  open spec fn records(&self) -> bool { false }",
+                     "  open spec fn delivered(t: Seq<Ev<%s>>) -> bool { true }" % ta] + spec.spec
+        stats["R6"] += 3
     if spec.spec:
         out.append("\n".join(spec.spec))
         stats["added_lines"] += len(spec.spec)
@@ -673,6 +743,8 @@ def extract_impl(path, header_lit, macro, args, handle, spec, stats, canary):
                 sig = re.sub(r"(fn\s+\w+\s*)<", r"\1<%s, " % g2, sig, count=1)
             else:
                 sig = re.sub(r"(fn\s+\w+)", r"\1<%s>" % g2, sig, count=1)
+            for am in re.finditer(r"\btype\s+(\w+)\s*=\s*([^;]+);", body):
+                sig = re.sub(r"\bSelf::%s\b" % am.group(1), am.group(2).strip(), sig)
             sig = re.sub(r"\bSelf::", "<%s>::" % selfty, sig)
             b = replace_self(rewrite_map_or(it["body"], stats))
             pm = re.findall(r"[(,]\s*mut\s+(\w+)\s*:", sig)
@@ -755,7 +827,7 @@ def variants_of(template_text):
 def generate(template_path, variant, canary=False):
     """returns (verus_source_text, stats)"""
     stats = dict(verbatim_lines=0, added_lines=0, R1=0, R2=0, R4=0, R7=0, R10=0, declared_rewrites=0,
-                 silent_obligations=0, trusted_fns=0, sources=[])
+                 silent_obligations=0, trusted_fns=0, assumes=0, R6=0, sources=[])
     raw = open(template_path).read()
     for k, v in variant.items():
         raw = raw.replace("${%s}" % k, v)
@@ -840,6 +912,11 @@ def generate(template_path, variant, canary=False):
                 elif t[0] == "@@trusted":
                     spec.trusted.add(t[1])
                     stats["trusted_fns"] += 1
+                    i += 1
+                elif t[0] == "@@assume":
+                    parts = l.split(" :: ")
+                    spec.assumes.setdefault(t[1], []).append((parts[1].strip(), parts[2].strip() if len(parts) > 2 else ""))
+                    stats["assumes"] += 1
                     i += 1
                 elif t[0] == "@@skipfn":
                     spec.skipfn.add(t[1])
